@@ -37,6 +37,10 @@ fn c03_families(format: Format, tier: Tier) -> Vec<Family> {
         }),
         Family::Recs(recs),
         Family::Recs(long_files(format, true).into_iter().step_by(if tier == Tier::Quick { 5 } else { 1 }).collect()),
+        Family::Raw(
+            "records breaking two rules at once (start / separator / lengths / truncation at every point) after 0-2 valid records",
+            if format == Format::Fastq { double_defect_inputs() } else { vec![] },
+        ),
     ]
 }
 
